@@ -160,6 +160,8 @@ def int_lines(which, c):
             out.append(f"add {a} {b} {c['alpha']}")
         elif which in ("sub", "sub_scalar"):
             out.append(f"sub {a} {b} {c['alpha']}")
+        elif which == "div_mode_int":
+            out.append(f"div_trunc {a} {b}" if c["mode"] == "trunc" else f"floor_divide_{'u' if c['dtype'] == 'u8' else 's'} {a} {b}")
         elif which == "shl":
             out.append(f"shl {w} {a} {b}")
         elif which == "shr":
@@ -342,7 +344,7 @@ def check_index_maps(L, drv, rng, stats):
         sh = rng.randint(-d, 2 * d)
         x = np.arange(d, dtype=np.int64)
         r, term, err = _ort_vals(L, "aten_roll", [x, [sh], [0]], {})
-        _, m, s = _ask3(drv, [f"roll_idx {d} {d} {sh}"])[0]
+        _, m, s = _ask3(drv, [f"roll_idx {d} 9223372036854775807 {sh}"])[0]
         tor = t.roll(t.tensor(x), sh, 0).tolist()
         c = dict(kind="roll_idx", d=d, shift=sh)
         if s != str(tor).replace(" ", ""):
@@ -379,6 +381,20 @@ def check_index_maps(L, drv, rng, stats):
 
 def run_all(L, drv, run, stats):
     problems = []
+    # value-level corpus entries (witnesses of fixed / open findings) first: regressions become failures
+    import json as _json
+    cp = core.VERIF / "harness" / "corpus_c08.jsonl"
+    if cp.exists():
+        for ln in cp.read_text().splitlines():
+            if not ln.strip():
+                continue
+            w = _json.loads(ln)
+            if w["name"] in INT_FUNCS and "a" in w["case"]:
+                problems += check_int(L, drv, w["name"], w["case"], stats)
+                stats["corpus_value"] += 1
+            elif w["name"] == "roll_complex":
+                problems += roll_complex_case(L, w["case"], stats)
+                stats["corpus_value"] += 1
     n = run.size(16, 160)
     for which in INT_FUNCS:
         for _ in range(n):
